@@ -49,6 +49,8 @@ def run(ctx, rep):
     rep.rule("R11-SCOPE", "Lambda arm protocol: declare -> lookup -> start_scope -> body -> end_scope (-> remove), once each, same unique; start/end symmetric", floor=8)
     rep.rule("R11-INTERN", "CodeGenInterner: bind -> body -> unbind on the same key; lookup returns the innermost active binder", floor=3)
     rep.rule("R11-FREE", "a failed lookup is Err on every path (FreeUnique / FreeIndex, checked_sub); TryFrom impls own a fresh Converter and propagate with ?", floor=10)
+    rep.rule("R11-PRIM", "the scope primitives (declare/remove/start/end, bind/unbind) are unconditional: no branch or early return can skip the bookkeeping a Lambda arm relies on", floor=7)
+    rep.guarded("R11-PRIM", lambda: r_prim(sh, rep))
     rep.guarded("R11-WALKS", lambda: r_walks(sh, rep))
     rep.guarded("R11-SCOPE", lambda: r_scope(sh, rep))
     rep.guarded("R11-INTERN", lambda: r_intern(sh, rep))
@@ -229,3 +231,65 @@ def r_free(sh, rep):
             used = {c["m"] for c in conv}
             rep.check(not (used & set(PROTO)) and not bad_unwrap, "R11-FREE", key, sh.loc(A, f), "an infallible From impl uses a fallible binder-aware conversion (%s)" % sorted(used & set(PROTO)))
     rep.check(n >= 14, "R11-FREE", "impl-count", A, "expected at least 14 conversion impls between Program/Term binder forms, found %d" % n, nontrivial=False)
+
+
+# ---------------------------------------------------------------------------------------------------------
+# R11-PRIM: scope bookkeeping primitives are straight-line
+# ---------------------------------------------------------------------------------------------------------
+PRIMS = [
+    (D, "Converter", "declare_unique", ["insert"]),
+    (D, "Converter", "remove_unique", ["remove"]),
+    (D, "Converter", "declare_binder", ["insert", "increment"]),
+    (D, "Converter", "start_scope", ["push"]),
+    (D, "Converter", "end_scope", ["pop"]),
+    (OI, "CodeGenInterner", "bind", ["push"]),
+    (OI, "CodeGenInterner", "unbind", ["pop"]),
+]
+BRANCHING = {"If", "Match", "While", "For", "Loop", "Closure"}
+EXITS = {"Return", "Try", "Break", "Continue"}
+
+
+def _unconditional(node):
+    """nodes evaluated on every execution of `node` (does not descend into branches, loops or closures)"""
+    stack = [node]
+    while stack:
+        n = stack.pop()
+        if isinstance(n, dict):
+            if "k" in n:
+                if n["k"] in BRANCHING:
+                    # the scrutinee / condition is still unconditional
+                    for key in ("cond", "e"):
+                        if key in n and n["k"] in ("If", "Match", "While", "For"):
+                            stack.append(n[key])
+                    continue
+                yield n
+            for v in n.values():
+                if isinstance(v, (dict, list)):
+                    stack.append(v)
+        elif isinstance(n, list):
+            stack.extend(n)
+
+
+def r_prim(sh, rep):
+    """R11-SCOPE proves that every Lambda arm *calls* the primitives in order; that only pairs binders correctly if each
+    call always does its bookkeeping. A conditional around the essential operation of a primitive (or an early return
+    before it, e.g. `if level == 0 { return }`) makes declare/remove asymmetric for some scopes while every call site
+    still looks right."""
+    for rel, ty, name, essential in PRIMS:
+        f = find_method(sh.file(rel), ty, name)
+        rep.touched(rel, "%s::%s" % (ty, name))
+        stmts = f["body"].get("stmts", [])
+        for op in essential:
+            pos = None
+            for i, st in enumerate(stmts):
+                if any(n["k"] == "MethodCall" and n["m"] == op for n in _unconditional(st)):
+                    pos = i
+                    break
+            key = "%s::%s#%s-unconditional" % (ty, name, op)
+            if pos is None:
+                rep.bad("R11-PRIM", key, sh.loc(rel, f), "%s::%s does not perform `%s` unconditionally (it is missing, or nested in a branch/loop/closure): the bookkeeping a Lambda arm relies on can be skipped" % (ty, name, op))
+                continue
+            early = [n for st in stmts[: pos + 1] for n in walk(st) if n["k"] in EXITS and n["s"][0] <= stmts[pos]["s"][2]]
+            # an exit *inside* the essential statement after the call is fine (`.expect`); only exits that can precede the op count
+            early = [n for n in early if n["s"][0] < stmts[pos]["s"][0] or n["k"] == "Return" and n["s"][0] <= stmts[pos]["s"][0]]
+            rep.check(not early, "R11-PRIM", key, sh.loc(rel, early[0]) if early else sh.loc(rel, stmts[pos]), "%s::%s can leave (%s at line %s) before `%s` runs: for some scopes the binder is never %s although every call site pairs the calls" % (ty, name, early[0]["k"] if early else "", early[0]["s"][0] if early else "", op, "removed" if op in ("remove", "pop") else "declared"), sample={"op": op, "statement": pos})
